@@ -137,6 +137,7 @@ class Ctx:
                        exc_edges=exc_edges, base_exc=base_exc, may_raise=may_raise,
                        stable_self_attrs=self.stable_attrs(fn))
         e.loops_for_comps = loops_for_comps
+        e.is_new = lambda f, known=known: f.key not in known
         e.comps_for_loops = comps_for_loops
         ps = e.paths(fn, bindings)
         self.rep.note_fn(fn)
